@@ -238,7 +238,7 @@ def nfa_repetition(N: NFA, id_generator: IdentifierGenerator = IdentifierGenerat
     for q in F:
         delta[q, N.epsilon] |= {N.q0}
     delta[q0, N.epsilon] = {N.q0}
-    return NFA(Q, Sigma, delta, q0, F)
+    return NFA(Q, Sigma, delta, q0, F, N.epsilon)
 
 
 def nfa_union(N1: NFA, N2: NFA, id_generator: IdentifierGenerator = IdentifierGenerator()) -> NFA:
@@ -251,7 +251,7 @@ def nfa_union(N1: NFA, N2: NFA, id_generator: IdentifierGenerator = IdentifierGe
     delta.update(N1.delta)
     delta.update(N2.delta)
     delta[q0, N1.epsilon] = {N1.q0, N2.q0}
-    return NFA(Q, Sigma, delta, q0, F)
+    return NFA(Q, Sigma, delta, q0, F, N1.epsilon)
 
 
 def nfa_concatenation(N1: NFA, N2: NFA) -> NFA:
@@ -265,7 +265,7 @@ def nfa_concatenation(N1: NFA, N2: NFA) -> NFA:
     delta.update(N2.delta)
     for q in N1.F:
         delta[q, N1.epsilon] |= {N2.q0}
-    return NFA(Q, Sigma, delta, q0, F)
+    return NFA(Q, Sigma, delta, q0, F, N1.epsilon)
 
 
 def print_nfa(N: NFA) -> str:
